@@ -16,7 +16,10 @@ def nf_violations(t, registry, path="$"):
             out.append(f"{path}: empty union")
         if len(ms) == 1:
             out.append(f"{path}: union with a single member")
-        hs = [get_hash_string(m) for m in ms]
+        # identity of a member as the user sees it, computed here and NOT with the package's get_hash_string (its cache is
+        # part of what is being judged): a model reference by its target, anything else structurally
+        from . import coqterm as _ct
+        hs = [("ptr", m.type.index) if isinstance(m, ModelPtr) else repr(_ct.pyty(m)) for m in ms]
         if len(set(hs)) != len(hs):
             out.append(f"{path}: duplicate members")
         if any(isinstance(m, DUnion) for m in ms):
